@@ -5,6 +5,7 @@
    Spec/LTLUnique.v for the full operator set at the semantic level. *)
 From Coq Require Import List Bool Arith ZArith Lia.
 Require Import HT TEL LTLUnique BodyTheoryCore GenPrelude TheoryPrelude FromTheory Leaf_theory FullOps.
+Require BodyTheoryFull.
 
 (* In every state reachable with an empty work list, for every assignment v of the auxiliary atoms that violates no
    emitted constraint and gives unresolved placeholders their external value, the literal cached for formula f at
@@ -39,6 +40,29 @@ Theorem C03_definitional : forall (A : Type) (A_eq_dec : forall a b : A, {a = b}
       (forall n, n < nxt A s' -> v n = vstar A (S h) T s' n) /\
       (forall f k l, cached A A_eq_dec s' f k l -> ev A T v l = BodyTheoryCore.lsat A (S h) T f k).
 Proof. exact C03_definitional_extension. Qed.
+
+(* ---- the FULL operator set (Model/BodyTheoryFull.v): Atom, BooleanConstant, Negation, the five Boolean connectives, n-fold weak / strong
+   Previous and Next, Initially, since / trigger and until / release with and without left operand; the clause groups are the tables
+   regenerated from the source; same cache / choice atom / placeholder / pending list mechanics as the core model ---- *)
+Module F := BodyTheoryFull.
+Theorem C03_full_translate_keeps_invariant : forall (A : Type) (A_eq_dec : forall a b : A, {a = b} + {a <> b}) (fuel h : nat) (todo : list (nat * F.bf A))
+  (f : F.bf A) (k : nat) (s : F.st A) (l : F.lit A) (s' : F.st A),
+  F.Inv A A_eq_dec h todo s -> k <= h -> F.translate A A_eq_dec fuel h f k s = Some (l, s') ->
+  F.Inv A A_eq_dec h todo s' /\ F.ext A A_eq_dec s s' /\ F.cached A A_eq_dec s' f k l.
+Proof. exact F.translate_inv. Qed.
+Theorem C03_full_value_is_LTLf : forall (A : Type) (A_eq_dec : forall a b : A, {a = b} + {a <> b}) (h : nat) (s : F.st A),
+  F.Inv A A_eq_dec h nil s -> forall (T : F.trace A) (v : nat -> bool), F.ok_cls A T v s -> F.ok_ext A A_eq_dec v s ->
+  forall (f : F.bf A) (k : nat) (l : F.lit A), F.cached A A_eq_dec s f k l -> F.ev A T v l = F.lsat A h T f k.
+Proof. exact F.value_full. Qed.
+Theorem C03_full_step : forall (A : Type) (A_eq_dec : forall a b : A, {a = b} + {a <> b}) (fuel h : nat) (s : F.st A)
+  (roots : list (nat * F.bf A)) (s' : F.st A) (T : F.trace A) (v : nat -> bool),
+  F.Inv A A_eq_dec h nil s -> (forall p, In p (F.pending A s) -> fst p <= S h) -> (forall p, In p roots -> fst p <= S h) ->
+  F.theory_translate A A_eq_dec fuel (S h) roots s = Some s' -> F.ok_cls A T v s' -> F.ok_ext A A_eq_dec v s' ->
+  forall (f : F.bf A) (k : nat) (l : F.lit A), F.cached A A_eq_dec s' f k l -> F.ev A T v l = F.lsat A (S h) T f k.
+Proof. exact F.incremental_full. Qed.
+Theorem C03_full_first_horizon : forall (A : Type) (A_eq_dec : forall a b : A, {a = b} + {a <> b}) (fuel : nat) (roots : list (nat * F.bf A)) (s' : F.st A),
+  (forall p, In p roots -> fst p <= 0) -> F.run_list A A_eq_dec fuel 0 roots (F.init A) = Some s' -> F.Inv A A_eq_dec 0 nil s'.
+Proof. exact F.first_horizon_inv. Qed.
 
 (* Semantic layer for the FULL body operator set: any valuation that satisfies the per-horizon definitional equations
    (the equations the Tseitin clauses of each constructor encode) is the LTLf value. *)
@@ -103,3 +127,7 @@ Print Assumptions C03_boolean_clauses. Print Assumptions C03_temporal_clauses. P
 Print Assumptions C03_previous_is_LTLf. Print Assumptions C03_next_is_LTLf. Print Assumptions C03_until_release_is_LTLf.
 Print Assumptions C03_since_trigger_is_LTLf. Print Assumptions C03_boolean_is_LTLf.
 Print Assumptions C03_full_operator_set.
+Print Assumptions C03_full_translate_keeps_invariant.
+Print Assumptions C03_full_value_is_LTLf.
+Print Assumptions C03_full_step.
+Print Assumptions C03_full_first_horizon.
